@@ -9,6 +9,7 @@ ids=("$@"); [ ${#ids[@]} -eq 0 ] && ids=($(ls seeded | grep '^m'))
 tmp=$(mktemp -d /tmp/sregress.XXXX)
 one() {
   id=$1; prop=$(jq -r .property seeded/$id/meta.json); wt=$tmp/$id
+  if [ "$(jq -r '.masked_on_current_tree // ""' seeded/$id/meta.json)" != "" ]; then echo "$id $prop MASKED (no longer observable on the current tree, see meta.json)"; return; fi
   b=50; case $prop in C11|C19) b=80;; esac
   git -C /repo worktree add --detach $wt HEAD >/dev/null 2>&1 || { echo "$id $prop WORKTREE-FAILED"; return; }
   if ! git -C $wt apply $PWD/seeded/$id/patch.diff 2>/dev/null && ! git -C $wt apply -3 $PWD/seeded/$id/patch.diff 2>/dev/null; then
@@ -24,5 +25,8 @@ one() {
 }
 export -f one; export tmp
 printf '%s\n' "${ids[@]}" | xargs -P $lanes -I{} bash -c 'one {}' > $tmp/out.txt
-sort $tmp/out.txt > seeded/REGRESS.txt; cat seeded/REGRESS.txt | awk '{print $3}' | sort | uniq -c
+# merge: lines of the ids just run replace their old lines, the others stay
+touch seeded/REGRESS.txt
+awk 'NR==FNR{new[$1]=$0; next} !($1 in new){print}' $tmp/out.txt seeded/REGRESS.txt > $tmp/merged.txt; cat $tmp/out.txt >> $tmp/merged.txt
+sort -V $tmp/merged.txt > seeded/REGRESS.txt; cat seeded/REGRESS.txt | awk '{print $3}' | sort | uniq -c
 rm -rf $tmp; git -C /repo worktree prune
